@@ -1,6 +1,7 @@
 import Zc.Model.Cache
 import Zc.Model.Reentrant
 import Zc.Model.BrowserCb
+import Zc.Model.BrowserReentrant
 /-! Driver command `crun` shared by C05, C06 and C04: one line = one whole history.
 
 ```
@@ -12,6 +13,8 @@ op := D now <n> rec* <nreact> (code lid kind target [t qname qtype qclass])*
     | LA id | LR id                                         -- add / remove a recording listener
     | BA id now <n> type*                                   -- new browser (purge, then initial replay, both at `now`)
     | BR id                                                 -- cancel browser
+    | BP bid change name newBid <n> type*                   -- plan: browser bid's service listener, told `change` (A/R/U) for `name`,
+                                                            --   creates browser newBid on the types (once), from inside the handler
 ```
 Output: one observation per op, joined by ` | `.  See `harness/cachecommon.py` for the mirror image. -/
 namespace Zc.Driver.C05
@@ -58,6 +61,7 @@ inductive Op where
   | lAdd (id : Nat) | lRem (id : Nat)
   | bAdd (id : Nat) (now : Ms) (types : List String)
   | bRem (id : Nat)
+  | plan (p : Plan)
 
 def parseReact : Tok React := do
   let code ← Tok.nat; let lid ← Tok.nat; let kind ← Tok.nat; let target ← Tok.nat
@@ -78,6 +82,10 @@ def parseOp : Tok Op := do
   | "LR" => do let i ← Tok.nat; pure (.lRem i)
   | "BA" => do let i ← Tok.nat; let now ← Tok.int; let ts ← Tok.list Tok.str; pure (.bAdd i now ts)
   | "BR" => do let i ← Tok.nat; pure (.bRem i)
+  | "BP" => do
+    let bid ← Tok.nat; let ch ← Tok.next; let name ← Tok.str; let nb ← Tok.nat; let ts ← Tok.list Tok.str
+    let change ← match ch with | "A" => pure Change.added | "R" => pure Change.removed | "U" => pure Change.updated | _ => failure
+    pure (.plan { bid, change, name, newBid := nb, types := ts })
   | _ => failure
 
 def parseTriple : Tok (String × Nat × Nat) := do
@@ -98,6 +106,8 @@ structure Host where
   /-- `RecordManager.listeners` restricted to the harness's recording listeners (a set) -/
   listeners : List Nat := []
   browsers : List (Nat × Browser) := []
+  /-- handler plans of the browsers' service listeners that have not run yet -/
+  plans : List Plan := []
 
 def setAdd (l : List Nat) (x : Nat) : List Nat := if l.contains x then l else l ++ [x]
 def setRem (l : List Nat) (x : Nat) : List Nat := l.filter (fun y => y != x)
@@ -132,12 +142,68 @@ def nestStr (log : List NestEv) : String :=
     match ev with
     | .addq depth lid target t => some s!"Q{depth}:{lid}>{target}@{t}"
     | .purge depth _ recs => some s!"P{depth}[{recsStr recs}]"
+    | .made depth bid nb => some s!"B{depth}:{bid}>{nb}"
     | .call depth phase lid replay =>
       if depth = 0 then none
       else if phase = 1 then (if replay.isEmpty then some s!"u{depth}:{lid}" else some s!"R{depth}:{lid}[{recsStr replay}]")
       else some s!"c{depth}:{lid}"))
 
-def step (p : Probes) (h : Host) (op : Op) : Host × String :=
+/-- the generated facts about `_ServiceBrowserBase.async_update_records_complete` (D24b repair): are the pending changes detached
+before they are fired? -/
+def detaches : Bool := Browser.detachesCode
+
+def errName (e : PyExc) : String := if e = .other then "RuntimeError" else e.name
+
+def hostR (h : Host) : HostR := { cache := h.cache, listeners := h.listeners, browsers := h.browsers, plans := h.plans }
+
+/-- the ops of a history in which some service listener still has a plan (it may create a browser from inside a handler): the
+composite of `Zc/Model/BrowserReentrant.lean` -/
+def stepPlans (p : Probes) (h : Host) (op : Op) : Option (Host × String) :=
+  let l := asciiLower
+  let fuel := 24
+  match op with
+  | .dg now recs _ =>
+    let a := ingestPre l (Cache.ops l) h.cache now recs
+    if a.updates.isEmpty then none
+    else
+      let c1 := a.cache
+      let us := livePairs (Cache.ops l) c1 a.updates
+      let S1 := updateAllR l possibleTypes 0 now us { hostR h with cache := c1 }
+      match ingestFinish (Cache.ops l) S1.cache a with
+      | .error e => some (h, s!"D err={errName e}")
+      | .ok f =>
+        let S2 := completeAllR l possibleTypes detaches fuel 0 now { S1 with cache := f.1 }
+        let h' : Host := { cache := S2.cache, listeners := h.listeners, browsers := S2.browsers, plans := S2.plans }
+        match S2.err with
+        | some e =>
+          some (h', s!"D err={errName e} u={pairsStr us} c1={idsStr h.listeners} s1={snapStr c1} c2={idsStr h.listeners} s2={snapStr f.1} nest={nestStr S2.log} ls={idsStr h.listeners} {readersStr p S2.cache}")
+        | none =>
+          some (h', s!"D u={pairsStr us} c1={idsStr h.listeners} s1={snapStr c1} c2={idsStr h.listeners} s2={snapStr f.1} nest={nestStr S2.log} ls={idsStr h.listeners} n={if f.2 then 1 else 0} cb={cbStr S2.cbs} {readersStr p S2.cache}")
+  | .purge now =>
+    match expire (Cache.ops l) h.cache (Gen.Cache.purge_expire_now now) with
+    | .error e => some (h, s!"X err={errName e}")
+    | .ok out =>
+      let pairs := out.2.map (fun r => (r, some r))
+      -- the harness's clock ticks per reading during this op: the cleanup took reading 0
+      let S1 := updateAllR l possibleTypes 0 (Gen.Cache.purge_updates_now now) pairs { hostR h with cache := out.1, tick := some 1 }
+      let S2 := completeAllR l possibleTypes detaches fuel 0 now S1
+      let h' : Host := { cache := S2.cache, listeners := h.listeners, browsers := S2.browsers, plans := S2.plans }
+      match S2.err with
+      | some e => some (h', s!"X err={errName e}")
+      | none => some (h', s!"X u={pairsStr pairs} c1={idsStr h.listeners} c2={idsStr h.listeners} n=0 cb={cbStr S2.cbs} {readersStr p S2.cache}")
+  | .bAdd i now types =>
+    let h := { h with browsers := h.browsers.filter (fun ib => ib.1 != i) }
+    let S := createR l possibleTypes detaches fuel 0 now i types (hostR h)
+    let h' : Host := { cache := S.cache, listeners := h.listeners, browsers := S.browsers, plans := S.plans }
+    match S.err with
+    | some e => some (h', s!"BA err={errName e}")
+    | none =>
+      match S.log.findSome? (fun ev => match ev with | .purge 0 _ recs => some recs | _ => none) with
+      | none => some (h', s!"BA u=~ c1=~ c2=~ cb={cbStr S.cbs}")
+      | some recs => some (h', s!"BA u={pairsStr (recs.map (fun r => (r, some r)))} c1={idsStr h.listeners} c2={idsStr h.listeners} cb={cbStr S.cbs}")
+  | _ => none
+
+def stepPlain (p : Probes) (h : Host) (op : Op) : Host × String :=
   let l := asciiLower
   match op with
   | .dg now recs reacts =>
@@ -197,6 +263,13 @@ def step (p : Probes) (h : Host) (op : Op) : Host × String :=
         ({ h with cache := o.cache, browsers := bs' ++ [(i, o.browser)] },
           s!"BA u={pairsStr us} c1={idsStr h.listeners} c2={idsStr h.listeners} cb={cbStr (cbs ++ o.callbacks.map (fun cb => (i, cb)))}")
   | .bRem i => ({ h with browsers := h.browsers.filter (fun ib => ib.1 != i) }, "BR")
+  | .plan pl => ({ h with plans := h.plans ++ [pl] }, "BP")
+
+def step (p : Probes) (h : Host) (op : Op) : Host × String :=
+  if h.plans.isEmpty then stepPlain p h op
+  else match stepPlans p h op with
+    | some r => r
+    | none => stepPlain p h op
 
 def run (p : Probes) (ops : List Op) : String :=
   let (_, outs) := ops.foldl (fun (acc : Host × List String) op => let (h', s) := step p acc.1 op; (h', s :: acc.2)) ({}, [])
